@@ -1,5 +1,5 @@
 //@unit sm9_fp4
-//@serves C13 C20
+//@serves C09 C10 C13 C16 C17 C20
 //@source gm-sm9/src/fields/fp4.rs
 //@assume the PartialEqSpecImpl of Fp2 (limb equality of both coefficients) is restated here as it is defined and proved for Fp2::eq in unit sm9_fp2 (`spec local` items are not exported by include-spec)
 //@assume the `ring_*` lemmas (integer-polynomial identities: associativity/distributivity of the Fp2 and Fp4 product formulas, Karatsuba's middle term; external_body in Verus) are discharged on every run by Lean `ring` (vf/ringcheck.py; any other shape is refused)
